@@ -123,8 +123,8 @@ def _managers_case():
         sim = cx.obj(WNTRSimulator, _wn=wn)
         m = cx.interp.models
         m.register(WNTRSimulator._get_all_tank_controls, lambda i, a, k: list(tank), verified_by="contracts/c06_tanks.py")
-        m.register(WNTRSimulator._get_cv_controls, lambda i, a, k: list(cv), verified_by="contracts/c02_status.py")
-        m.register(WNTRSimulator._get_pump_controls, lambda i, a, k: list(pump), verified_by="contracts/c02_status.py")
+        m.register(WNTRSimulator._get_cv_controls, lambda i, a, k: list(cv), verified_by="contracts/c05_valvectl.py, contracts/c02_status.py")
+        m.register(WNTRSimulator._get_pump_controls, lambda i, a, k: list(pump), verified_by="contracts/c05_valvectl.py, contracts/c02_status.py")
         m.register(WNTRSimulator._get_valve_controls, lambda i, a, k: list(valve), verified_by="contracts/c05_valvectl.py, contracts/c02_status.py")
         cx.target(WNTRSimulator._get_control_managers, sim)
 
